@@ -148,6 +148,15 @@ func DecodeFrom(reader io.Reader) (*Pointer, io.Reader, error) {
 		return EmptyPointer(), contents, nil
 	}
 
+	// A pointer is always shorter than blobSizeCutoff bytes. An input that
+	// fills the whole buffer is content, even if its first bytes happen to
+	// trim down to a pointer (a pointer padded with white space): treating
+	// it as one would leave the rest of the input unread.
+	if len(buf) == blobSizeCutoff {
+		return nil, contents, errors.NewNotAPointerError(errors.New(
+			tr.Tr.Get("input size exceeds Git LFS pointer size cutoff")))
+	}
+
 	p, err := decodeKV(bytes.TrimSpace(buf))
 	if err == nil && p != nil {
 		p.Canonical = p.Encoded() == string(buf)
